@@ -9,8 +9,18 @@
     escape_no_raw escape_output_wf add_safe_once radd_safe_once join_safe_once mod_safe_once
     mul_spec attrs_or_keeps_order attrs_or_none_removed attrs_or_nodup
     attrs_or_dup_repaired attrs_sub_spec attrs_or_replaces
+    utf8_decode_roundtrip escapeC_chars_eq_spec impl_escape_agree escape_cls_spec escape_cls_idempotent
+    add2_safe_once radd2_safe_once mul2_spec join2_safe_once mod2_safe_once ops_impl_agree
+    unescape_plain_and_inverts unescapeFn_spec stripentities_escape striptags_escape plaintext_escape
+    attrs_has_iff_get attrs_slice_spec attrs_sub_nodup attrs_or_sub_nodup attrs_totuple_append
+    qname_pickle_roundtrip qname_parse ns_getitem_in
+    stripentities_keepxml_escape striptags_no_tag attrs_get_or escape2_append unescape_no_entity
+    mod2_percent_s striptags_keeps_plain_text striptags_removes_simple_tag mod2_percent_key striptags_re_as_modelled
 -/
 import Genshi.Lemmas.Escape
+import Genshi.Lemmas.MarkupOps
+import Genshi.Lemmas.MarkupFmt
+import Genshi.Gen.MarkupRe
 namespace Genshi.Props.C18
 open Genshi.Escape Genshi.Str
 
@@ -334,6 +344,334 @@ theorem attrs_sub_spec (self : Attrs) (names : List Name) (n : Name) (v : List C
     (n, v) ∈ Attrs.sub self names ↔ (n, v) ∈ self ∧ n ∉ names := by
   simp [Attrs.sub, List.mem_filter]
 
+
+/-! ## Wave 4: the wider algebra, both implementations (`Genshi.MarkupOps`) -/
+section Wave4
+open Genshi.MarkupOps
+
+/-- `PyUnicode_FromStringAndSize` reads back what `PyUnicode_AsUTF8AndSize` wrote, for every
+    string of Unicode scalars. -/
+theorem utf8_decode_roundtrip (s : List Char) : utf8Decode (utf8 s).length (utf8 s) = s :=
+  utf8Decode_utf8 s
+
+/-- The C `escape()` end to end — encode, two-pass byte scan, decode — is the character-wise
+    escape (on characters, not only on bytes as `escapeC_eq_spec`). -/
+theorem escapeC_chars_eq_spec (q : Bool) (s : List Char) : escapeC q s = escapeSpec q s :=
+  MarkupOps.escapeC_eq_spec q s
+
+/-- The compiled and the pure-Python escaper give identical results for all strings. -/
+theorem impl_escape_agree (q : Bool) (s : List Char) : escOf .c q s = escOf .py q s := by
+  rw [escOf_eq_spec, escOf_eq_spec]
+
+/-- `Markup.escape(x, quotes)` on every string operand kind, in both implementations: a safe
+    string (never a plain `str`) whose text is the operand escaped once2 iff it was not safe. -/
+theorem escape_cls_spec (i : Impl) (q : Bool) (a : Arg) (h : a.stringy = true) :
+    ∃ t, escapeCls i (escOf i) q a = .ok (t, once2 q a) ∧ t ≠ .str :=
+  escapeCls_string i q a h
+
+/-- escaping the result of `escape` again changes nothing (idempotent on Markup) -/
+theorem escape_cls_idempotent (i : Impl) (q q' : Bool) (a : Arg) :
+    escapeCls i (escOf i) q' (.markup (once2 q a)) = .ok (.markup, once2 q a) := by
+  cases h : once2 q a with
+  | nil => simp [escapeCls, Arg.falsy]
+  | cons c cs => cases i <;> simp [escapeCls, Arg.falsy]
+
+/-- `Markup + x` in both implementations -/
+theorem add2_safe_once (i : Impl) (self : List Char) (a : Arg) (h : a.stringy = true) :
+    add i (escOf i) self a = .ok (.markup, self ++ once2 true a) := by
+  simp [add, escapeOp_string i true a h, Except.map]
+
+/-- `x + Markup` in both implementations -/
+theorem radd2_safe_once (i : Impl) (self : List Char) (a : Arg) (h : a.stringy = true) :
+    radd i (escOf i) self a = .ok (.markup, once2 true a ++ self) := by
+  simp [radd, escapeOp_string i true a h, Except.map]
+
+/-- `Markup * n` / `n * Markup`: a Markup, `n` copies (none for a negative count) -/
+theorem mul2_spec (self : List Char) (n : Int) :
+    mul self (.int n) = .ok (.markup, (List.replicate n.toNat self).flatten) := by
+  simp [mul, mul_spec]
+
+/-- `sep.join(seq, escape_quotes)` in both implementations -/
+theorem join2_safe_once (i : Impl) (sep : List Char) (q : Bool) (xs : List Arg)
+    (h : ∀ x ∈ xs, x.stringy = true) :
+    join i (escOf i) sep q xs = .ok (.markup, Str.join sep (xs.map (once2 q))) := by
+  unfold MarkupOps.join
+  rw [mapM_ok _ (once2 q) xs (fun x hx => escapeOp_string i q x (h x hx))]
+  rfl
+
+/-- `Markup % args` (single value, tuple, mapping) in both implementations: formatting sees each
+    operand escaped exactly once2 — the result is that of formatting the pre-escaped, safe operands. -/
+theorem mod2_safe_once (i : Impl) (fmt : List Char) (a : Arg) (os : List Arg) (kvs : List (List Char × Arg))
+    (ha : a.stringy = true) (hos : ∀ x ∈ os, x.stringy = true) (hkv : ∀ p ∈ kvs, p.2.stringy = true) :
+    MarkupOps.mod i (escOf i) fmt (.one a) = MarkupOps.mod i (fun _ s => s) fmt (.one (.markup (once2 true a))) ∧
+    MarkupOps.mod i (escOf i) fmt (.tup os) =
+      MarkupOps.mod i (fun _ s => s) fmt (.tup (os.map fun o => .markup (once2 true o))) ∧
+    MarkupOps.mod i (escOf i) fmt (.map kvs) =
+      MarkupOps.mod i (fun _ s => s) fmt (.map (kvs.map fun p => (p.1, .markup (once2 true p.2)))) := by
+  refine ⟨?_, ?_, ?_⟩
+  · unfold MarkupOps.mod; split
+    · rfl
+    · simp only [escapeOp_string i true a ha, escapeOp_markup]
+  · unfold MarkupOps.mod; split
+    · rfl
+    · dsimp only
+      rw [mapM_escapeOp i true os hos, mapM_escapeOp_pre]
+  · unfold MarkupOps.mod; split
+    · rfl
+    · dsimp only
+      rw [mapM_escapeKV i kvs hkv, mapM_escapeKV_pre]
+
+/-- The two implementations agree on every operator for all string operands. -/
+theorem ops_impl_agree (self sep : List Char) (q : Bool) (a : Arg) (xs : List Arg)
+    (ha : a.stringy = true) (hxs : ∀ x ∈ xs, x.stringy = true) :
+    add .c (escOf .c) self a = add .py (escOf .py) self a ∧
+    radd .c (escOf .c) self a = radd .py (escOf .py) self a ∧
+    join .c (escOf .c) sep q xs = join .py (escOf .py) sep q xs ∧
+    (escapeCls .c (escOf .c) q a).map (·.2) = (escapeCls .py (escOf .py) q a).map (·.2) := by
+  refine ⟨?_, ?_, ?_, ?_⟩
+  · rw [add2_safe_once _ _ _ ha, add2_safe_once _ _ _ ha]
+  · rw [radd2_safe_once _ _ _ ha, radd2_safe_once _ _ _ ha]
+  · rw [join2_safe_once _ _ _ _ hxs, join2_safe_once _ _ _ _ hxs]
+  · obtain ⟨t1, h1, _⟩ := escapeCls_string .c q a ha
+    obtain ⟨t2, h2, _⟩ := escapeCls_string .py q a ha
+    simp [h1, h2, Except.map]
+
+/-- `Markup.unescape()` returns a plain `str` and inverts `escape` of either implementation. -/
+theorem unescape_plain_and_inverts (i : Impl) (q : Bool) (s : List Char) :
+    unescapeM (escOf i q s) = (.str, s) := by
+  simp [unescapeM, escOf_eq_spec, unescape_escapeSpec]
+
+/-- `genshi.core.unescape`: a string that is no Markup comes back unchanged, a Markup (or an
+    instance of a subclass) as the plain unescaped `str`. -/
+theorem unescapeFn_spec (s : List Char) :
+    unescapeFn (.str s) = some (.str, s) ∧ unescapeFn (.markup s) = some (.str, unescape s) ∧
+    unescapeFn (.msub s) = some (.str, unescape s) := ⟨rfl, rfl, rfl⟩
+
+/-- `stripentities` of escaped text returns the text (both implementations, both `quotes`). -/
+theorem stripentities_escape (i : Impl) (q : Bool) (s : List Char) :
+    MarkupOps.stripentities false (escOf i q s) = .ok s := by
+  simp [MarkupOps.stripentities, escOf_eq_spec, San.stripentities_escape]
+
+/-- escaped text holds no tag: `striptags` leaves it unchanged. -/
+theorem striptags_escape (i : Impl) (q : Bool) (s : List Char) :
+    striptags (escOf i q s) = escOf i q s := by
+  rw [escOf_eq_spec]; exact striptags_escapeSpec q s
+
+/-- `plaintext` of escaped text is the text. -/
+theorem plaintext_escape (i : Impl) (q : Bool) (s : List Char) :
+    plaintext true (escOf i q s) = .ok s := by
+  rw [escOf_eq_spec]
+  simp only [plaintext, striptags_escapeSpec]
+  simp [MarkupOps.stripentities, San.stripentities_escape]
+
+/-- `name in attrs` iff `attrs.get(name)` finds a value -/
+theorem attrs_has_iff_get (a : Attrs) (n : Name) : Attrs.has a n = (Attrs.get a n).isSome :=
+  has_eq_get_isSome a n
+
+/-- a slice of an attribute list is a sub-list in order (so it holds no duplicates when the
+    list holds none); the full slice is the list -/
+theorem attrs_slice_spec (a : Attrs) (i j : Option Int) :
+    (attrsSlice a i j).Sublist a ∧ ((a.map (·.1)).Nodup → ((attrsSlice a i j).map (·.1)).Nodup) ∧
+    attrsSlice a none none = a :=
+  ⟨attrsSlice_sublist a i j, fun h => ((attrsSlice_sublist a i j).map _).nodup h, attrsSlice_all a⟩
+
+/-- `attrs - names` (also with a single string) keeps order and holds no duplicates when
+    `attrs` holds none -/
+theorem attrs_sub_nodup (a : Attrs) (names : List Name) (n : Name) (h : (a.map (·.1)).Nodup) :
+    ((Attrs.sub a names).map (·.1)).Nodup ∧ ((attrsSubStr a n).map (·.1)).Nodup ∧
+    Attrs.has (attrsSubStr a n) n = false := by
+  refine ⟨((sub_sublist a names).map _).nodup h, ((sub_sublist a [n]).map _).nodup h, ?_⟩
+  simp [attrsSubStr, Attrs.sub, Attrs.has]
+
+/-- `(a | b) - names`: duplicate-free for a duplicate-free `a`, and none of `names` is left -/
+theorem attrs_or_sub_nodup (a : Attrs) (b : List (Name × Option (List Char))) (names : List Name)
+    (h : (a.map (·.1)).Nodup) :
+    ((Attrs.sub (Attrs.or a b) names).map (·.1)).Nodup ∧
+    ∀ n ∈ names, Attrs.has (Attrs.sub (Attrs.or a b) names) n = false := by
+  refine ⟨((sub_sublist _ names).map _).nodup (attrs_or_nodup a b h), ?_⟩
+  intro n hn
+  simp only [Attrs.has, List.any_eq_false, Attrs.sub, List.mem_filter]
+  intro p hp hpn
+  simp at hpn hp
+  exact hp.2 (hpn ▸ hn)
+
+/-- the text of `totuple()` is the values in order -/
+theorem attrs_totuple_append (a b : Attrs) : attrsTotuple (a ++ b) = attrsTotuple a ++ attrsTotuple b := by
+  simp [attrsTotuple]
+
+/-- pickling / copying a QName (`__getnewargs__` handed back to `__new__`) gives the same name -/
+theorem qname_pickle_roundtrip (s : List Char) : qnameNew (qnameNewArgs (qnameNew s)) = qnameNew s := by
+  have hb : lstripBrace ('{' :: lstripBrace s) = lstripBrace s := by
+    show lstripBy _ _ = _
+    simp only [lstripBy, decide_true, ↓reduceIte]
+    exact lstripBrace_idem s
+  cases h : splitBrace (lstripBrace s) with
+  | some ab =>
+    obtain ⟨a, b⟩ := ab
+    simp only [qnameNew, qnameNewArgs, h, hb, lstripBrace_idem]
+  | none => simp only [qnameNew, qnameNewArgs, h, lstripBrace_idem]
+
+/-- `{ns}local` parses into its parts (the leading brace is optional) -/
+theorem qname_parse (ns loc : List Char) (h1 : '}' ∉ ns) (h2 : ns.head? ≠ some '{') :
+    qnameNew ('{' :: ns ++ '}' :: loc) = ⟨'{' :: ns ++ '}' :: loc, some ns, loc⟩ ∧
+    qnameNew (ns ++ '}' :: loc) = ⟨'{' :: ns ++ '}' :: loc, some ns, loc⟩ := by
+  have hh : (ns ++ '}' :: loc).head? ≠ some '{' := by
+    cases ns with
+    | nil => simp
+    | cons c cs => simpa using h2
+  have hl : lstripBrace (ns ++ '}' :: loc) = ns ++ '}' :: loc := lstripBrace_of_head _ hh
+  have hl2 : lstripBrace ('{' :: ns ++ '}' :: loc) = ns ++ '}' :: loc := by
+    show lstripBy _ _ = _
+    simp only [lstripBy, decide_true, ↓reduceIte, List.cons_append]
+    exact hl
+  constructor
+  · simp only [qnameNew, hl2, splitBrace_append ns loc h1]
+    simp
+  · simp only [qnameNew, hl, splitBrace_append ns loc h1]
+    simp
+
+/-- `Namespace(uri)[name]` is the QName of that namespace and local name, and belongs to it -/
+theorem ns_getitem_in (uri name : List Char) (h1 : '}' ∉ uri) (h2 : uri.head? ≠ some '{') :
+    (nsGetItem uri name).ns = some uri ∧ (nsGetItem uri name).loc = name ∧
+    nsContains uri (nsGetItem uri name) = true := by
+  have := (qname_parse uri name h1 h2).2
+  simp [nsGetItem, nsContains, this]
+
+/-- with `keepxmlentities` the entities `escape` writes for `& < >` stay and `&#34;` is read
+    back: the result is the text escaped without quotes -/
+theorem stripentities_keepxml_escape (i : Impl) (q : Bool) (s : List Char) :
+    MarkupOps.stripentities true (escOf i q s) = .ok (escapeSpec false s) := by
+  rw [escOf_eq_spec]; exact stripentitiesK_escape q s
+
+/-- `striptags` leaves no tag: in its result no `<` is followed, anywhere later, by a `>` -/
+theorem striptags_no_tag (s pre post : List Char) (h : striptags s = pre ++ '<' :: post) : '>' ∉ post :=
+  striptags_noTag s pre post h
+
+/-- `get` after `|`: a name given `None` is gone; otherwise the last value given on the right;
+    otherwise the value the name had on the left (no hypothesis on either operand) -/
+theorem attrs_get_or (a : Attrs) (b : List (Name × Option (List Char))) (n : Name) :
+    Attrs.get (Attrs.or a b) n =
+      if (orRemove b).contains n then none
+      else match lastVal n (somes b) with
+        | some v => some v
+        | none => Attrs.get a n := by
+  by_cases hr : (orRemove b).contains n = true
+  · simp only [hr, ↓reduceIte]
+    have hmem : (n, none) ∈ b := by
+      simp only [orRemove, List.contains_iff_mem, List.mem_filterMap] at hr
+      obtain ⟨p, hp, hpe⟩ := hr
+      obtain ⟨k, ov⟩ := p
+      cases ov with
+      | none => simp at hpe; subst hpe; exact hp
+      | some v => simp at hpe
+    have := attrs_or_none_removed a b n hmem
+    rw [has_eq_get_isSome] at this
+    cases hg : Attrs.get (Attrs.or a b) n with
+    | none => rfl
+    | some v => rw [hg] at this; simp at this
+  · have hr' : (orRemove b).contains n = false := by simpa using hr
+    simp only [hr', Bool.false_eq_true, ↓reduceIte]
+    unfold Attrs.or
+    rw [get_append, get_orKept a b n hr']
+    by_cases hh : a.has n = true
+    · have hh2 := hh
+      rw [has_eq_get_isSome] at hh2
+      obtain ⟨sv, hsv⟩ := Option.isSome_iff_exists.mp hh2
+      rw [hsv, lastVal_orRepl a b n hh]
+      cases lastVal n (somes b) <;> simp
+    · have hh' : a.has n = false := by simpa using hh
+      have hg : Attrs.get a n = none := by
+        have := hh'; rw [has_eq_get_isSome] at this
+        cases hx : Attrs.get a n with
+        | none => rfl
+        | some v => rw [hx] at this; simp at this
+      rw [hg]
+      simp only [Option.map_none]
+      unfold orNew
+      rw [get_orNew_fold a (orRemove b) n hh' hr' b []]
+      cases lastVal n (somes b) <;> simp [Attrs.get]
+
+/-- escaping distributes over concatenation in both implementations -/
+theorem escape2_append (i : Impl) (q : Bool) (a b : List Char) :
+    escOf i q (a ++ b) = escOf i q a ++ escOf i q b := by
+  simp [escOf_eq_spec, escapeSpec]
+
+/-- text without `&` holds no entity: `unescape` (method and module function) returns it as it is -/
+theorem unescape_no_entity (s : List Char) (h : '&' ∉ s) :
+    unescapeM s = (.str, s) ∧ unescapeFn (.markup s) = some (.str, s) := by
+  simp [unescapeM, unescapeFn, unescape_no_amp s h]
+
+/-- On the concrete format string `l0 %s l1 %s … ln` (no `%` in the literals), in both
+    implementations: `Markup(fmt) % (x1, …, xn)` is the Markup `l0 x1' l1 … xn' ln` where `xi'` is
+    `xi` escaped once iff it was not safe; and `Markup('l0 %s l1') % x` likewise for one value. -/
+theorem mod2_percent_s (i : Impl) (lits : List (List Char)) (os : List Arg)
+    (hl : ∀ l ∈ lits, '%' ∉ l) (hlen : lits.length = os.length + 1) (hos : ∀ x ∈ os, x.stringy = true) :
+    MarkupOps.mod i (escOf i) (fmtOf lits) (.tup os) =
+      .ok (.markup, interleave lits (os.map (once2 true))) ∧
+    (∀ a, os = [a] → MarkupOps.mod i (escOf i) (fmtOf lits) (.one a) =
+      .ok (.markup, interleave lits [once2 true a])) := by
+  constructor
+  · unfold MarkupOps.mod
+    rw [parseFmt_fmtOf lits _ [] hl (Nat.lt_succ_self _)]
+    dsimp only
+    rw [mapM_escapeOp i true os hos]
+    simp only [liftErr, List.reverse_nil]
+    have := fmtPos_piecesOf lits [] (os.map (once2 true)) (by simpa using hlen)
+    simp only [List.nil_append] at this
+    simp [this, bind, Except.bind, pure, Except.pure]
+  · intro a ha
+    subst ha
+    unfold MarkupOps.mod
+    rw [parseFmt_fmtOf lits _ [] hl (Nat.lt_succ_self _)]
+    dsimp only
+    rw [escapeOp_string i true a (hos a (by simp))]
+    simp only [liftErr, List.reverse_nil]
+    have := fmtPos_piecesOf lits [] [once2 true a] (by simpa using hlen)
+    simp only [List.nil_append] at this
+    simp [this, bind, Except.bind, pure, Except.pure]
+
+/-- `striptags` keeps the text before the first `<` as it is (hence text without `<` entirely) -/
+theorem striptags_keeps_plain_text (a b : List Char) (h : '<' ∉ a) :
+    striptags (a ++ b) = a ++ striptags b ∧ striptags a = a := by
+  refine ⟨striptags_plain_prefix a b h, ?_⟩
+  have := striptags_plain_prefix a [] h
+  simpa [striptags, stripTagsGo] using this
+
+/-- `striptags` removes a tag `<t>` whose inside holds no `>` and does not begin with `!` -/
+theorem striptags_removes_simple_tag (t rest : List Char) (h1 : '>' ∉ t) (h2 : t.head? ≠ some '!') :
+    striptags ('<' :: t ++ '>' :: rest) = striptags rest :=
+  striptags_simple_tag t rest h1 h2
+
+/-- On the concrete format string `l0 %(k1)s l1 … %(kn)s ln` (no `%` in the literals, no
+    parenthesis in the keys), in both implementations: `Markup(fmt) % mapping` is the Markup
+    `l0 v1' l1 … vn' ln` where `vi'` is the value of `ki` escaped once iff it was not safe
+    (every key present, every value a string operand). -/
+theorem mod2_percent_key (i : Impl) (lits ks : List (List Char)) (kvs : List (List Char × Arg))
+    (hl : ∀ l ∈ lits, '%' ∉ l) (hk : ∀ k ∈ ks, '(' ∉ k ∧ ')' ∉ k) (hlen : lits.length = ks.length + 1)
+    (hkv : ∀ p ∈ kvs, p.2.stringy = true)
+    (hin : ∀ k ∈ ks, (lookupKey k (kvs.map fun p => (p.1, once2 true p.2))).isSome) :
+    MarkupOps.mod i (escOf i) (fmtOfK lits ks) (.map kvs) =
+      .ok (.markup, interleave lits
+        (ks.map fun k => (lookupKey k (kvs.map fun p => (p.1, once2 true p.2))).getD [])) := by
+  unfold MarkupOps.mod
+  rw [parseFmt_fmtOfK lits ks _ [] hl hk hlen (Nat.lt_succ_self _)]
+  dsimp only
+  rw [mapM_escapeKV i kvs hkv]
+  simp only [liftErr, List.reverse_nil]
+  have := fmtMap_piecesOfK (kvs.map fun p => (p.1, once2 true p.2)) lits [] ks hlen hin
+  simp only [List.nil_append] at this
+  simp [this, bind, Except.bind, pure, Except.pure]
+
+/-- The regular expression of `genshi.util.striptags`, as the translator reads it from the code
+    on every run, is the one the scanner `matchTag` was written against: `(<!--.*?-->|<[^>]*>)`
+    without DOTALL (`afterCommentEnd` stops at a line feed). -/
+theorem striptags_re_as_modelled :
+    Genshi.Gen.MarkupRe.striptagsDotall = false ∧
+    Genshi.Gen.MarkupRe.striptagsShape = ['G', '1', '(', 'L', 'I', 'T', '6', '0', ' ', 'A', 'L', 'T', '(', 'L', 'I', 'T', '3', '3', ' ', 'L', 'I', 'T', '4', '5', ' ', 'L', 'I', 'T', '4', '5', ' ', 'M', 'I', 'N', '{', '0', ',', 'I', 'N', 'F', '}', '(', 'A', 'N', 'Y', ')', ' ', 'L', 'I', 'T', '4', '5', ' ', 'L', 'I', 'T', '4', '5', ' ', 'L', 'I', 'T', '6', '2', '|', 'M', 'A', 'X', '{', '0', ',', 'I', 'N', 'F', '}', '(', 'N', 'O', 'T', 'L', 'I', 'T', '6', '2', ')', ' ', 'L', 'I', 'T', '6', '2', ')', ')'] := by
+  decide
+
+end Wave4
+
 /-! ### non-vacuity -/
 example : escapePy true ['a', '<', '"', '&'] =
     ['a', '&', 'l', 't', ';', '&', '#', '3', '4', ';', '&', 'a', 'm', 'p', ';'] := by decide
@@ -341,5 +679,47 @@ example : unescape (escapePy true ['&', 'l', 't', ';', '<']) = ['&', 'l', 't', '
 example : (escapeCBytes true (utf8 ['é', '<'])).1 = utf8 ['é', '&', 'l', 't', ';'] := by decide
 example : Attrs.or [(['h'], ['#']), (['t'], ['x'])] [(['h'], none), (['n'], some ['1'])]
     = [(['t'], ['x']), (['n'], ['1'])] := by decide
+
+/-! ### non-vacuity (wave 4) -/
+section Wave4Examples
+open Genshi.MarkupOps
+example : escapeC true ['é', '<', '"', '😀'] = ['é', '&', 'l', 't', ';', '&', '#', '3', '4', ';', '😀'] := by decide +kernel
+example : utf8Decode 7 (utf8 ['a', 'é', '€', '😀']) = ['a', 'é', '€', '😀'] := by decide +kernel
+example : add .py (escOf .py) ['<', 'b', '>'] (.msub ['<']) = .ok (.markup, ['<', 'b', '>', '<']) := by decide +kernel
+example : radd .c (escOf .c) ['<', 'b', '>'] (.str ['<']) = .ok (.markup, ['&', 'l', 't', ';', '<', 'b', '>']) := by decide +kernel
+example : escapeCls .c (escOf .c) true (.msub ['<']) = .ok (.msub, ['<']) ∧
+    escapeCls .py (escOf .py) true (.msub ['<']) = .ok (.markup, ['<']) ∧
+    escapeCls .py (escOf .py) true (.int 5) = .error .attributeError ∧
+    escapeCls .c (escOf .c) true (.int 5) = .ok (.markup, ['5']) := by decide +kernel
+example : MarkupOps.join .py (escOf .py) [','] false [.str ['"', '<'], .markup ['<'], .none] =
+    .ok (.markup, ['"', '&', 'l', 't', ';', ',', '<', ',']) := by decide +kernel
+example : MarkupOps.mod .py (escOf .py) ['%', 's', '|', '%', 'r', '|', '%', '%'] (.tup [.str ['<'], .markup ['<', '\'']]) =
+    .ok (.markup, ['&', 'l', 't', ';', '|', '<', 'M', 'a', 'r', 'k', 'u', 'p', ' ', '"', '<', '\'', '"', '>', '|', '%']) := by decide +kernel
+example : MarkupOps.mod .c (escOf .c) ['%', '(', 'k', ')', 's', ' ', '%', '(', 'k', ')', 'd'] (.map [(['k'], .str ['<'])]) =
+    .error (.raised .typeError) := by decide +kernel
+example : MarkupOps.mul ['a', 'b'] (.int (-1)) = .ok (.markup, []) ∧
+    MarkupOps.mul ['a', 'b'] (.int 2) = .ok (.markup, ['a', 'b', 'a', 'b']) := by decide
+example : striptags ['<', 'b', '>', 'a', '<', '/', 'b', '>', '<', '!', '-', '-', ' ', '>', ' ', '-', '-', '>', 'z', '<'] = ['a', 'z', '<'] := by decide +kernel
+example : striptags (['<', '!', '-', '-'] ++ ['\n'] ++ ['>', 'x', '-', '-', '>', 'y']) = ['x', '-', '-', '>', 'y'] := by decide +kernel
+example : MarkupOps.stripentities true ['&', 'l', 't', ';', '&', 'h', 'e', 'l', 'l', 'i', 'p', ';', '&', 'f', 'o', 'o', ';', '&', '#', '6', '5', ';'] = .ok ['&', 'l', 't', ';', '…', '&', 'a', 'm', 'p', ';', 'f', 'o', 'o', ';', 'A'] := by decide +kernel
+example : MarkupOps.stripentities false ['&', 'l', 't', ';', '&', 'h', 'e', 'l', 'l', 'i', 'p', ';', '&', 'f', 'o', 'o', ';', '&', '#', 'x', '4', '1'] = .ok ['<', '…', 'f', 'o', 'o', 'A'] := by decide +kernel
+example : plaintext false (['<', 'b', '>', '1'] ++ ['\n'] ++ ['&', 'l', 't', ';', ' ', '2', '<', '/', 'b', '>']) = .ok ['1', ' ', '<', ' ', '2'] := by decide +kernel
+example : qnameNew ['{', '{', 'x', '}', 'a'] = ⟨['{', 'x', '}', 'a'], some ['x'], ['a']⟩ ∧ qnameNew ['a', '{', 'b'] = ⟨['a', '{', 'b'], none, ['a', '{', 'b']⟩ := by
+  decide
+example : nsContains ['u'] (nsGetItem ['u'] ['a']) = true ∧ nsContains ['a', '}', 'b'] (nsGetItem ['a', '}', 'b'] ['c']) = false := by
+  decide
+example : attrsSlice [(['a'], ['1']), (['b'], ['2']), (['c'], ['3'])] (some (-2)) none =
+    [(['b'], ['2']), (['c'], ['3'])] ∧
+    attrsIndex [(['a'], ['1'])] (-1) = .ok (['a'], ['1']) ∧ attrsIndex [(['a'], ['1'])] 1 = .error .indexError := by
+  decide
+example : attrsTotuple [(['a'], ['1']), (['b'], ['2', '3'])] = ['1', '2', '3'] := by decide
+example : Attrs.get (Attrs.or [(['h'], ['#']), (['t'], ['x'])] [(['h'], some ['1']), (['n'], some ['1']), (['h'], some ['2']), (['t'], none)]) ['h'] = some ['2'] := by decide
+example : striptags ['<', '<', 'a', '>', 'b', '<'] = ['b', '<'] := by decide
+example : MarkupOps.mod .c (escOf .c) (fmtOf [['<', 'b', '>'], ['|'], []]) (.tup [.str ['<'], .msub ['<']]) =
+    .ok (.markup, ['<', 'b', '>', '&', 'l', 't', ';', '|', '<']) := by decide +kernel
+example : MarkupOps.mod .py (escOf .py) (fmtOfK [['a'], ['|'], []] [['k'], ['j']])
+    (.map [(['k'], .str ['<']), (['j'], .markup ['<'])]) =
+    .ok (.markup, ['a', '&', 'l', 't', ';', '|', '<']) := by decide +kernel
+end Wave4Examples
 
 end Genshi.Props.C18
